@@ -8,6 +8,10 @@ package pcache
 //
 // Explicit-state BFS over {add(k,v), marker adds, batch adds, get(k), getBytes(k)+buffer reuse, removeByTTL(1|all), setSizeTTL(6 configs),
 // clock +1/+3, save, reload} with 4 keys of different sizes, injected time (nowUnix is an argument everywhere).
+// Storage faults: save!storage-call#k-fails(nothing|half|all applied) for every call k a Save makes on its storage
+// (WriteAt, Truncate), a bounded number per history; a Save that returns err == nil is always held to "the file
+// reloads to the cache's contents / nothing was inserted and no Save failed since the last Save that wrote".
+// c21LargeSaves repeats the fault alphabet on a cache whose Save writes three chunks.
 //
 // AddValues and RemoveByTTL pick eviction candidates by ranging over the Go map, whose order the runtime
 // randomises. That choice is enumerated, not sampled: every state is a value (all fields of MappingsCache that
@@ -174,7 +178,7 @@ type c21Op struct {
 	size   int64
 	ttl    int64
 	ordDep bool
-	post   bool // member of the sub-alphabet that continues a history after an injected storage fault in the quick tier
+	post   bool // member of the sub-alphabet that continues a history after an injected storage fault
 	frac   int // c21SaveFault: how much of the failing storage call is applied before it reports the error: 0 nothing, 1 half (WriteAt only), 2 all
 }
 
@@ -230,8 +234,8 @@ func c21Ops(keys []string) []c21Op {
 			ops = append(ops, c21Op{name: fmt.Sprintf("save!storage-call#%d-fails(%s)", k, what), kind: c21SaveFault, n: k, frac: frac})
 		}
 	}
-	// quick tier: after an injected fault the history continues over the operations that decide what the fault did
-	// (Save, reload, a new string per key, expiry, time; further faults while the budget lasts); thorough: all of them
+	// after an injected fault the history continues over the operations that decide what the fault did
+	// (Save, reload, a new string per key, expiry, time; further faults while the budget lasts)
 	for i := range ops {
 		o := &ops[i]
 		o.post = o.kind == c21Save || o.kind == c21Reload || o.kind == c21SaveFault || (o.kind == c21Add && len(o.pairs) == 1 && o.pairs[0].Value%10 == 1) ||
@@ -260,7 +264,7 @@ type c21Search struct {
 	loads    atomic.Int64
 	loaded   sync.Map // file bytes -> c21Loaded (read-only afterwards)
 	depth       int
-	postOnly    bool // after a fault only the operations marked post continue the history (quick tier)
+	postOnly    bool // after a fault only the operations marked post continue the history
 	faultBudget int   // storage faults per history
 	faultSaves  atomic.Int64
 	retrySaves  atomic.Int64 // healthy Saves executed while a failed Save was outstanding
@@ -701,26 +705,25 @@ func TestVerifC21(t *testing.T) {
 		}
 	}()
 	depth := mc.Pick(5, 7)
-	rep.Rule = "mapping cache: explicit-state BFS (value states, one fresh real MappingsCache per executed operation) over add/marker add/batch add/get/getBytes(with the caller overwriting its buffer afterwards)/removeByTTL/setSizeTTL/clock/save/reload with 4 keys of different sizes; " +
+	rep.Rule = "mapping cache: explicit-state BFS (value states, one fresh real MappingsCache per executed operation) over add/marker add/batch add/get/getBytes(with the caller overwriting its buffer afterwards)/removeByTTL/setSizeTTL/clock/save/reload/save during which the k-th storage call fails (every k, nothing|half|all applied) with 4 keys of different sizes; " +
 		"every order in which the code can visit the map when it picks eviction candidates is executed (one cache per permutation of the keys); non-trivial = (state, operation) pairs with more than one distinct successor, i.e. the eviction outcome depends on the map order"
 	faultBudget := mc.Pick(1, 2)
 	rep.Bounds["cache_depth"] = depth
 	rep.Bounds["cache_storage_faults_per_history"] = fmt.Sprintf("%d, at any position but the last", faultBudget)
-	rep.Bounds["cache_operations_after_a_fault"] = mc.Pick("save, reload, add(k,v) per key, removeByTTL(100), clock+1, further faulted saves", "all")
+	rep.Bounds["cache_operations_after_a_fault"] = "save, reload, add(k,v) per key, removeByTTL(100), clock+1, further faulted saves"
 	rep.Bounds["cache_keys"] = "a/bb/cccc/dddddddd and aaaaaaaa/bbbb/cc/d (sizes 33,34,37,42 in both orders of the tie-break)"
 	rep.Bounds["cache_configs"] = "maxSize 70/112/1000 x maxTTL 0/2"
 	rep.Assume("Go map iteration visits a small map's slots in insertion order starting at a random offset (checked by a self-test at start); all n! insertion orders are executed, which covers every visiting order")
 	rep.Assume("MappingsCache.deterministic=true (the package's own test switch): entries with equal access time are evicted in key order; other tie-breaks are covered by the second key family with reversed sizes")
 	rep.Assume("one AddValues call never carries the same string twice (the aggregator builds the list from a map); sequential calls only, concurrency of GetValue with writers is outside this check")
 	total := struct{ states, transitions int }{}
-	c21LargeSaves(t, rep)
 	rep.Bounds["cache_large_saves"] = "30 strings of 50 KB (3 chunks + truncate) over no / a shorter / a longer older file; every storage call of the Save fails with nothing/half/all applied; then Save | add+Save on a healthy disk"
 	for fam, keys := range [][]string{{"a", "bb", "cccc", "dddddddd"}, {"aaaaaaaa", "bbbb", "cc", "d"}} {
 		if err := c21SelfTest(keys); err != nil {
 			rep.Infra("c21: " + err.Error())
 			return
 		}
-		se := &c21Search{rep: rep, keys: keys, faultBudget: faultBudget, depth: depth, postOnly: !mc.Thorough()}
+		se := &c21Search{rep: rep, keys: keys, faultBudget: faultBudget, depth: depth, postOnly: true}
 		ops := c21Ops(keys)
 		init := &c21State{maxSize: 1000, maxTTL: 0, now: 1000}
 		seen := map[string]bool{init.key(): true}
@@ -777,6 +780,7 @@ func TestVerifC21(t *testing.T) {
 		total.transitions += transitions
 		t.Logf("C21 cache family %v: states=%d transitions=%d executions=%d levels=%v several-outcomes=%d evicting=%d retries=%d", keys, len(seen), transitions, se.execs.Load(), levels, se.nontriv.Load(), se.evicting.Load(), se.retries.Load())
 	}
+	c21LargeSaves(t, rep)
 }
 
 // ---- multi-chunk Saves with a failing storage call ----
